@@ -17,7 +17,7 @@ RULE = ('programs (facts, rules with cut / if-then-else / negation, atoms with e
         'newline, atoms containing every other line separator (bare CR, CR LF, VT, FF, FS/GS/RS, NEL, LS, PS), non-ASCII atoms, lists and anonymous variables, empty and comment-only files, a syntax error, a '
         'non-callable goal, a clause too large for Python, an unsupported term) x ALL 16 combinations of -d '
         '--debug-parser --debug-generator --debug-filename x {stdout, -o file} x {file argument, - with the text on '
-        'standard input} x {one source, two sources, a second source that does not compile, a first source that does not compile followed by this one}, each run as a real '
+        'standard input, the path /dev/stdin fed from a pipe (a source that is not a regular file)} x {one source, two sources, a second source that does not compile, a first source that does not compile followed by this one, a first source that stops in the middle of a clause followed by this one}, each run as a real '
         'subprocess of `python -m yldprolog.compiler`. Checked: with the debug options off the output equals the '
         'concatenation of compile_prolog_from_file of the sources in order; the exit status is non-zero iff a source does '
         'not compile, and for a syntax error stderr names the file and line:column; for every flag combination the '
@@ -44,6 +44,7 @@ PROGRAMS = [
     ('linebreaks', "m1('five\rsix').\nm2('a\r\nb').\nm3('x\x0by', 'p\x0cq').\nm4('u\x85v', 's\u2028t', 'w\u2029z', 'i\x1cj\x1dk\x1el').\n"
                    "p(X) :- 'go\rdef'(X), X = 'cr\rafter'.\ngreet('hello\rdef injected_0():\r  yield False\rmakelist = variable\r#').\n", 'ok'),
     ('directives-discontiguous', ":- init(_, _).\np(_, a).\nq(_, X) :- p(_, X).\np(b, _) :- q(_, _).\n:- other(_).\nq(_, _).\nr([_|_], f(_)).\np(_, _) :- r(_, _).\n", 'ok'),
+    ('open-ended', 'wet(X) :- rain(X),\n', 'syntax'),
     ('multiline-clause', "longer(\n  'first\nsecond',\n  X\n) :-\n  true,\n  X = 'x'.\n", 'ok'),
 ]
 QUICK = ['facts', 'newlines', 'unicode', 'syntax-error', 'control', 'linebreaks', 'too-large', 'directives-discontiguous']
@@ -85,8 +86,14 @@ def configurations(progs):
     for name in names:
         for flags in itertools.product([False, True], repeat=4):
             for out in ('stdout', 'file'):
-                for inp in ('file', 'stdin'):
-                    for multi in ('one', 'two', 'second-fails', 'first-fails'):
+                for inp in ('file', 'stdin', 'devstdin'):
+                    # devstdin: the source is a PATH that is not a regular file (/dev/stdin fed from a pipe,
+                    # as with shell process substitution); only with all debug flags off / all on
+                    if inp == 'devstdin' and flags not in ((False,) * 4, (True,) * 4):
+                        continue
+                    for multi in ('one', 'two', 'second-fails', 'first-fails', 'first-open-ended'):
+                        if multi == 'first-open-ended' and inp != 'file':
+                            continue
                         yield name, flags, out, inp, multi
 
 
@@ -100,6 +107,10 @@ def check_config(tmp, table, cfg, cache):
     elif multi == 'first-fails':
         # a source that does not compile FOLLOWED by this one: the status is non-zero whatever comes later
         sources = ['syntax-error', name]
+    elif multi == 'first-open-ended':
+        # a first source that stops in the middle of a clause (every source is a program of its own:
+        # what follows in the NEXT source must not complete it)
+        sources = ['open-ended', name]
     elif multi == 'second-fails':
         sources.append('syntax-error')
     fl = [f for f, on in zip(FLAGS, flags) if on]
@@ -117,6 +128,10 @@ def check_config(tmp, table, cfg, cache):
             args.append('-')
             stdin_text = table[s][0]
             paths.append('-')
+        elif i == 0 and inp == 'devstdin':
+            args.append('/dev/stdin')
+            stdin_text = table[s][0]
+            paths.append('/dev/stdin')
         else:
             args.append(s + '.prolog')
             paths.append(s + '.prolog')
@@ -125,7 +140,7 @@ def check_config(tmp, table, cfg, cache):
     if outpath:
         produced = open(outpath, encoding='utf8', newline='').read() if os.path.exists(outpath) else ''
     label = 'yldpc %s   (cwd holds %s%s)\n' % (' '.join(args), ', '.join(s + '.prolog' for s in sources),
-                                               '; the text of %s.prolog is piped to stdin' % sources[0] if inp == 'stdin' else '')
+                                               '; the text of %s.prolog is piped to stdin' % sources[0] if inp in ('stdin', 'devstdin') else '')
     kinds = [table[s][1] for s in sources]
     should_fail = any(k != 'ok' for k in kinds)
     if should_fail:
